@@ -77,6 +77,7 @@ class Analysis:
         self.in_state = {}
         self.out_state = {}
         self.converged = False
+        self._cur = (0, 0)
         self.sticky = set()      # (block, loc) pairs that have become phi (monotone)
         # results of the recording pass
         self.stmt_val = {}       # (b,i) -> value assigned
@@ -103,6 +104,10 @@ class Analysis:
                 return ("proj", pv, ("dc", L[2]))
             return ("init", L)
         if k == "index":
+            if self.mutable_root(L[1]):
+                # element of a local array / of memory behind a &mut: stores to elements are not
+                # tracked, so each load is its own value
+                return ("aload", L[1], L[2], self._cur)
             pv = self.read_opt(st, L[1])
             if pv is not None:
                 base = pv
@@ -121,7 +126,66 @@ class Analysis:
             pv = self.read_opt(st, L[1])
             base = pv if pv is not None else ("init", L[1])
             return ("subslice", base, L[2], L[3], L[4])
+        if k == "deref" and L[1][0] == "promoted":
+            pv = self.promoted_pointee(L[1])
+            if pv is not None:
+                return pv
         return ("init", L)
+
+    def promoted_pointee(self, pv):
+        """the constant a promoted `&CONST` points to"""
+        if self.F is None or pv[1] != self.fn.path:
+            return None
+        idx = pv[2]
+        cache = self.__dict__.setdefault("_promoted", {})
+        if idx in cache:
+            return cache[idx]
+        cache[idx] = None
+        try:
+            raw = self.fn.promoted[idx]
+        except IndexError:
+            return None
+        class _PF:
+            pass
+        pf = _PF()
+        pf.path = self.fn.path + "::promoted[%d]" % idx
+        pf.body = raw
+        pf.blocks = raw["blocks"]
+        pf.locals = raw["locals"]
+        pf.argc = raw["argc"]
+        pf.promoted = []
+        pf._cfg = None
+        pf.local_name = lambda i: "_%d" % i
+        try:
+            a = Analysis(pf, self.F)
+        except Exception:
+            return None
+        for b, info in a.term.items():
+            if info["kind"] == "return":
+                v = info["value"]
+                if v[0] == "ref":
+                    st = a.state_before_term(b)
+                    val = a.read(st, v[1])
+                    if val[0] in ("const", "bytes", "agg", "repeat"):
+                        cache[idx] = val
+                        self.vtype.setdefault(val, a.vtype.get(val))
+        return cache[idx]
+
+    def mutable_root(self, L):
+        """is the array/slice location L writable in this function (local storage or behind &mut)?"""
+        while L[0] in ("field", "index", "downcast", "cidx", "subslice"):
+            L = L[1]
+        if L[0] == "local":
+            i = L[1]
+            if 1 <= i <= self.fn.argc:
+                return False   # by-value parameter arrays are not modified in this code base
+            return bool(self.fn.locals[i].get("mut", True))
+        if L[0] == "deref":
+            tk = self.vtype.get(L[1])
+            if tk is not None and tk["k"] in ("ref", "ptr"):
+                return bool(tk["mut"])
+            return False
+        return False
 
     def read_opt(self, st, L):
         """value of L if it is known (directly or derivable), else None"""
@@ -364,6 +428,13 @@ class Analysis:
         if base == "core::slice::{impl#0}::is_empty" and len(args) == 1:
             v = ("bin", "Eq", self.len_of(args[0]), ("const", 0, "usize"))
             return v
+        if base.endswith("::as_slice") and base.startswith("core::array::") and len(args) == 1:
+            tk = self.vtype.get(args[0])
+            t = tk
+            while t is not None and t["k"] in ("ref", "ptr"):
+                t = t["to"]
+            if t is not None and t["k"] == "array" and t["n"] >= 0:
+                return ("unsize", args[0], t["n"])
         if base in PURE_STD and all(a[0] != "ref" for a in args):
             return ("call", callee, tuple(args), None)
         if self.F is not None and callee in self.F.pure:
@@ -384,6 +455,7 @@ class Analysis:
     def transfer(self, b, st, record=False):
         blk = self.fn.blocks[b]
         for i, s in enumerate(blk["stmts"]):
+            self._cur = (b, i)
             if s["s"] == "assign":
                 L = self.loc(st, s["lhs"])
                 v = self.rvalue(st, s["rv"], (b, i))
@@ -409,6 +481,7 @@ class Analysis:
                     del st[K]
         t = blk["term"]
         k = t["t"]
+        self._cur = (b, "t")
         if k == "call":
             args = [self.operand(st, a) for a in t["args"]]
             site = (self.fn.path, b)
@@ -580,9 +653,10 @@ def walk(v, fn_):
     stack = [v]
     while stack:
         x = stack.pop()
-        if not isinstance(x, tuple):
+        if not isinstance(x, tuple) or not x:
             continue
-        fn_(x)
+        if isinstance(x[0], str):
+            fn_(x)
         for y in x[1:]:
             if isinstance(y, tuple):
                 stack.append(y)
